@@ -110,6 +110,16 @@ DESC = {
 "C15i": "the store write moved from resolve_remote into resolve_from_url (a direct resolve_remote is not remembered)", "C16i": "validates() registers an id-less metaschema under its $schema",
 "C17i": "ErrorTree walks error.absolute_path instead of error.path (trees built from error.context misfile)", "C18i": "RefResolver construction appends unknown schemes to urllib.parse.uses_relative / uses_netloc",
 "C19i": "load failures are ADDED to the exit status (256 unloadable instances give status 0)", "C20i": "validator_for subscripts schema['$schema'] in a try (defaultdict schemas get a $schema invented and inserted)",
+"C01j": "properties() (drafts 4/6/7) uses instance.get(property) and skips members whose value is null", "C02j": "resolve_remote also stores a fetched document under the id it declares, overwriting the entry of the document that really has that URL",
+"C03j": "integer-divisor fallback of multipleOf builds Fraction(instance, dB) (TypeError for a float instance and a huge int divisor)", "C04j": "draft-3 single-schema extends calls validator.validate() (raises instead of yielding)",
+"C05j": "RefResolver.resolve remembers (url, subschema) per reference text, ignoring the base in effect (siblings under different bases)", "C06j": "shared _prepend helper drops schema-path steps equal to 'if' or '$ref' also when they are member NAMES",
+"C07j": "iter_errors registers every id-carrying subschema it walks in the resolver's store", "C08j": "contains() fast path `v in instance` when its subschema is exactly {const: v}",
+"C09j": "exclusiveMinimum returns early if the bound `in (True, False)` (0 and 1 are such bounds)", "C10j": "bundled draft-6 metaschema gains a `$comment` property (a draft-7 keyword)",
+"C11j": "META_SCHEMA published as a mappingproxy (the metaschema object itself is no longer an 'object')", "C12j": "draft-3 disallow builds a fresh sub-validator without the format checker",
+"C13j": "FormatChecker(formats=...) iterates its argument twice (one-shot iterables leave it empty)", "C14j": "resolve_fragment applies the `if fragment else []` guard after removing the leading '/' ('#/' returns the whole document)",
+"C15j": "default urljoin cache is one module-level lru shared by all resolvers (stale after the program registers a scheme with urllib)", "C16j": "draft4_format_checker and draft6_format_checker are the same FormatChecker instance",
+"C17j": "ErrorTree.__len__ counts with a work list keyed by child index (a reused index one level down overwrites a pending subtree)", "C18j": "thread-local nesting-depth budget bumped in iter_errors and held across yields",
+"C19j": "argument parser built with fromfile_prefix_chars='@'", "C20j": "validate() passes an explicit cls only as the default of validator_for",
 }
 MISSED = set("C03 C07 C12 C15 C16 C20 C02b C06b C07b C10b C11b C14b C19b C01c C02c C06c C10c C12c C15c C16c C18c C19c C20c "
              "C02d C04d C05d C07d C09d C13d C15d C16d C18d C19d C20d "
@@ -117,7 +127,8 @@ MISSED = set("C03 C07 C12 C15 C16 C20 C02b C06b C07b C10b C11b C14b C19b C01c C0
              "C02f C03f C04f C07f C11f C12f C17f C18f "
              "C01g C02g C05g C08g C09g C10g C12g C14g C16g C18g "
              "C01h C02h C03h C04h C05h C06h C09h C12h C14h C18h C19h C20h "
-             "C04i C06i C10i C15i C16i C17i C18i C19i C20i".split())
+             "C04i C06i C10i C15i C16i C17i C18i C19i C20i "
+             "C02j C04j C05j C06j C07j C08j C10j C13j C15j C19j".split())
 rows = []
 for name in sorted(os.listdir(os.path.join(HERE, "seeded"))):
     mp = os.path.join(HERE, "seeded", name, "meta.json")
